@@ -141,6 +141,10 @@ func (r *Result) String() string {
 			if i > 0 {
 				sb.WriteByte(' ')
 			}
+			if i >= 24 {
+				sb.WriteString(fmt.Sprintf("... (%d points, last at %d)", len(s.Points), s.Points[len(s.Points)-1].T))
+				break
+			}
 			sb.WriteString(fmt.Sprintf("%s@%d", fmtV(p.V), p.T))
 		}
 		if _, ok := by[k]; !ok {
@@ -158,7 +162,11 @@ func (r *Result) String() string {
 		sb.WriteString(k + " => " + strings.Join(by[k], " | "))
 	}
 	sb.WriteString("]")
-	return sb.String()
+	out := sb.String()
+	if len(out) > 6000 {
+		out = out[:6000] + fmt.Sprintf(" ... (%d series)", len(r.Series))
+	}
+	return out
 }
 
 // ------------------------------------------------------------------ in-memory storage for the upstream engine
